@@ -40,7 +40,7 @@ func (c22) Generate(r *engine.Rand, index int, tier string) *engine.Scenario {
 	if index == 7 || (tier == "thorough" && index%500 == 7) {
 		// a key held for more than a minute of emulated time with nothing else happening, polled rarely
 		sc.Class = "long-hold"
-		sc.Events = append(sc.Events, engine.Event{At: 10, K: "bus_w", A: 0xff00, V: engine.Pick(r, []uint8{0x10, 0x20, 0x00})})
+		sc.Events = append(sc.Events, engine.Event{At: 10, K: "bus_w", A: 0xff00, V: 0x00}) // both groups selected: every held key shows
 		sc.Events = append(sc.Events, engine.Event{At: 20, K: "key", A: uint16(r.Intn(8)), V: 1})
 		sc.Events = append(sc.Events, engine.Event{At: 30, K: "key", A: uint16(r.Intn(8)), V: 1})
 		for at := uint64(1 << 20); at < 70<<20; at += 1 << 22 {
